@@ -476,6 +476,11 @@ def _load_kwargs(*args, **kwargs) -> Geometry:
 
     def handle_path():
         from ..path import Path2D, Path3D
+        from ..path.exchange.misc import dict_to_path
+
+        if any(isinstance(e, dict) for e in kwargs["entities"]):
+            # entities as exported by `Path.export(file_type="dict")`
+            kwargs.update(dict_to_path(kwargs))
 
         shape = np.shape(kwargs["vertices"])
         if len(shape) < 2:
